@@ -325,7 +325,7 @@ func C17(tier string) int {
 			}
 		}
 	}
-	res.Rule = fmt.Sprintf("activities whose to/cc/audience hold every sequence of <= %d entries over {owned Collection, owned OrderedCollection, foreign collection, owned non-collection, remote actor, an owned collection on a foreign host, another tenant's collection on the local host}; reply chains of depth 0..%d through inReplyTo/object/target/tag with every embedded / dereferenced-IRI form per link, the final value owned or not, plus chains broken by a missing or unknown-type document, diamonds (one fetched or embedded value referenced on two paths of different length, the owned value below it), and chains ending in a Link-derived value (Mention named by href only; Link whose id and href disagree, the owned one being the id or only the href); depth limit %v; filter {all, first only, none, last only (filtering the slice it is handed in place), all (reversing it in place)}; delivery histories {A, AA, AB, BAA, ABA} over two local inboxes; %d histories, each a sequence of real requests on one application state; oracle: forwarded (once, on the first delivery) iff an owned (Ordered)Collection is addressed and an owned value lies within the limit; recipients are the members of exactly the collections the filter returned; payload equals the received body and is not changed after it was handed to the transport (the model keeps the very slice); the activity is recorded exactly once; plus 16 activities that have a default side effect (Create by IRI / embedded, Update, Delete, Like, Announce, Add, Remove, Follow, Accept, Reject, Undo, Block), with and without application hooks, meeting the three conditions: forwarded once, payload and recorded copy equal to the received activity; states = distinct application states reached, transitions = requests", maxAddr, maxDepth, limits, len(cases))
+	res.Rule = fmt.Sprintf("activities whose to/cc/audience hold every sequence of <= %d entries over {owned Collection, owned OrderedCollection, foreign collection, owned non-collection, remote actor, an owned collection on a foreign host, another tenant's collection on the local host}; reply chains of depth 0..%d through inReplyTo/object/target/tag with every embedded / dereferenced-IRI form per link, the final value owned or not, plus chains broken by a missing or unknown-type document, diamonds (one fetched or embedded value referenced on two paths of different length, the owned value below it), and chains ending in a Link-derived value (Mention named by href only; Link whose id and href disagree, the owned one being the id or only the href); depth limit %v; filter {all, first only, none, last only (filtering the slice it is handed in place), all (reversing it in place)}; delivery histories {A, AA, AB, BAA, ABA} over two local inboxes; %d histories, each a sequence of real requests on one application state; oracle: forwarded (once, on the first delivery) iff an owned (Ordered)Collection is addressed and an owned value lies within the limit; recipients are the members of exactly the collections the filter returned; payload equals the received body and is not changed after it was handed to the transport (the model keeps the very slice); the activity is recorded exactly once; plus 16 activities that have a default side effect (Create by IRI / embedded, Update, Delete, Like, Announce, Add, Remove, Follow, Accept, Reject, Undo, Block), with and without application hooks, meeting the three conditions: forwarded once, payload and recorded copy equal to the received activity; two different activities in a row on one Actor that reach one remote document at different depths (either order): each judged by its own depth; states = distinct application states reached, transitions = requests", maxAddr, maxDepth, limits, len(cases))
 	res.Assumptions = []string{"locks are counted, not blocking (a collection addressed twice is C09's known finding)", "a dereferenced document that is not JSON aborts the search with an error and is left to C11"}
 	var mu sync.Mutex
 	states := map[uint64]struct{}{}
@@ -593,6 +593,56 @@ func C17(tier string) int {
 	}
 	res.Evaluations += nTyped
 	res.Extra["typed_activities"] = nTyped
+	// ---- two DIFFERENT activities in a row on one Actor, both reaching the same remote document S
+	// (whose inReplyTo is owned) but at different depths: what the search learnt for one activity
+	// (S too deep: nothing owned within the limit) must not decide the other ----
+	nTwo := 0
+	sID, owned := "https://r1.example/chain/shared-doc", "https://l.example/n/owned-through-shared"
+	mkAct := func(id string, k int) M {
+		var v interface{} = sID
+		for i := k; i >= 1; i-- {
+			v = Emb("Add", fmt.Sprintf("%s/lvl%d", id, i), "summary", "x", "inReplyTo", v)
+		}
+		return Doc("Offer", id, "actor", Carol, "to", L{Col1}, "object", v)
+	}
+	for _, lim := range []int{2, 3, 4} {
+		for kDeep := 1; kDeep <= 3; kDeep++ {
+			for kShallow := 0; kShallow < kDeep; kShallow++ {
+				for _, order := range [][2]int{{kDeep, kShallow}, {kShallow, kDeep}} {
+					a := BaseWorld()
+					a.MaxFwdDepth = lim
+					a.PutRemote(sID, Doc("Add", sID, "summary", "shared", "inReplyTo", owned))
+					var fw []bool
+					for i, k := range order {
+						id := fmt.Sprintf("https://r1.example/a/two-%d", i)
+						sc := &Scenario{Name: fmt.Sprintf("c17/two-activities limit=%d depths=%v", lim, order), Kind: ap.Both, Entry: "PostInbox", URL: inbox(Alice), Body: mkAct(id, k)}
+						nDel := len(a.Deliveries)
+						out := sc.On(a, nil)
+						if out.Panic != nil || out.Err != nil {
+							fw = nil
+							break
+						}
+						fw = append(fw, len(a.Deliveries) > nDel)
+					}
+					nTwo++
+					res.Case(fmt.Sprintf("two-activities|%d|%v", lim, order))
+					for i, k := range order {
+						if fw == nil {
+							break
+						}
+						want := k+2 <= lim // S at level k+1, the owned value at level k+2
+						if fw[i] != want {
+							res.Violate(fmt.Sprintf("two-activities|forwarded=%v-expected=%v|position=%d", fw[i], want, i),
+								fmt.Sprintf("limit %d, two activities reaching the shared document below %v embedded levels: activity %d forwarded=%v, expected %v", lim, order, i+1, fw[i], want),
+								M{"check": "C17", "part": "two-activities", "limit": lim, "depths": order})
+						}
+					}
+				}
+			}
+		}
+	}
+	res.Evaluations += nTwo
+	res.Extra["two_activity_histories"] = nTwo
 	res.States = len(states)
 	for _, i := range []int{len(cases) / 5, len(cases) / 2, len(cases) - 7} {
 		res.Sample(M{"case": cases[i].String()})
